@@ -387,7 +387,7 @@ fn build_pool(seed: u64, idx: u64, out: &mut RunOut) -> (Vec<Call>, bool, String
   let mut shared = false;
   let origin;
   let feats_opts: [Option<Vec<String>>; 3] = [None, Some(vec![]), Some(vec!["featx".into()])];
-  match rk.weighted(&[5, 3, 3, 2, 2, 2]) {
+  match rk.weighted(&[5, 3, 3, 2, 2, 2, 1]) {
     0 => {
       // two or three independently inferred schemas: they reuse the rule names root, r1, r2, ... with
       // different definitions; conforming, perturbed and malformed documents; all formats
@@ -411,6 +411,10 @@ fn build_pool(seed: u64, idx: u64, out: &mut RunOut) -> (Vec<Call>, bool, String
         }
         if rw.chance(1, 2) {
           pool.push(Call { kind: "fmt".into(), schema: schema.clone(), doc: vec![], features: None });
+        }
+        if rw.chance(1, 3) {
+          let csv = to_csv(&gen_csv_doc(&mut rw, &dcfg), &mut rw).into_bytes();
+          pool.push(Call { kind: if rw.coin() { "csv0".into() } else { "csv1".into() }, schema: schema.clone(), doc: csv, features: f.clone() });
         }
       }
     }
@@ -531,6 +535,27 @@ fn build_pool(seed: u64, idx: u64, out: &mut RunOut) -> (Vec<Call>, bool, String
           pool.remove(k);
         }
       }
+    }
+    6 => {
+      // a call that panics today (caught by the caller, as a server would) before and between ordinary ones:
+      // whatever the unwinding left behind (a poisoned lock, a half-updated table) must not change later answers
+      origin = "after-panic".to_string();
+      out.probe("pool_after_panic");
+      pool.push(Call { kind: "json".into(), schema: "t = [ * r ]\nr = { x y: text }\n".into(), doc: b"[{\"x\":\"a\"}]".to_vec(), features: None });
+      let doc = gen_doc(&mut rw, &dcfg, 0);
+      let mut scfg = SchemaCfg::swarm(&mut rk);
+      scfg.hazards = false;
+      let mut g = SchemaGen::new(&mut rw, scfg);
+      let root = g.ty(&doc, 0);
+      let schema = g.finish(root);
+      let bad = perturb(&mut rw, &dcfg, &doc);
+      for d in [&doc, &bad] {
+        pool.push(Call { kind: "json".into(), schema: schema.clone(), doc: to_json(d).into_bytes(), features: None });
+        pool.push(Call { kind: "cbor".into(), schema: schema.clone(), doc: to_cbor_min(d), features: None });
+      }
+      let (lit, docs) = *rw.pick(REGEX_LITERALS);
+      pool.push(Call { kind: "json".into(), schema: format!("root = tstr .regexp {}\n", cddl_text_literal(lit)), doc: jstr(docs[0]), features: None });
+      pool.push(Call { kind: "json".into(), schema: "root = { ? u: uri, ? d: tdate }\n".into(), doc: b"{\"u\":\"urn:a:b\",\"d\":\"2020-01-01T00:00:00Z\"}".to_vec(), features: None });
     }
     _ => {
       // one AST shared by reference between clients that build their own validators on it
